@@ -1196,12 +1196,12 @@ def explained_by(verdict) -> bool:
 
 
 def jm_obs(verdict) -> list:
-    return [b for b in (verdict or {}).get("obs") or [] if b.get("k", "jm") == "jm"]
+    return sorted((b for b in (verdict or {}).get("obs") or [] if b.get("k", "jm") == "jm"), key=lambda b: b["i"])
 
 
 def tx_obs(verdict) -> list:
     """Observed Connection.in_transaction values that differ from the model's transaction state (Trace_Workers)."""
-    return [b for b in (verdict or {}).get("obs") or [] if b.get("k") in ("tx", "idle")]
+    return sorted((b for b in (verdict or {}).get("obs") or [] if b.get("k") in ("tx", "idle")), key=lambda b: b["i"])
 
 
 def who(p) -> str:
